@@ -10,7 +10,7 @@ const (
 	stMissingOptional
 	stWrongSyntax
 	stWrongProfile
-	stUnclassified // an error the properties do not assign a class to
+	stUnclassified  // an error the properties do not assign a class to
 	stPanicExpected // nil component entry: no verdict on class (C05's business)
 )
 
